@@ -10,6 +10,7 @@ import (
 	"flag"
 	"fmt"
 	"io"
+	"math"
 	"os"
 	"sort"
 	"strconv"
@@ -21,13 +22,16 @@ import (
 	"google.golang.org/grpc"
 	"google.golang.org/grpc/codes"
 	"google.golang.org/grpc/status"
+	"google.golang.org/protobuf/types/known/timestamppb"
 
 	"github.com/ozontech/seq-db/consts"
 	"github.com/ozontech/seq-db/disk"
 	"github.com/ozontech/seq-db/logger"
+	"github.com/ozontech/seq-db/pkg/seqproxyapi/v1"
 	"github.com/ozontech/seq-db/pkg/storeapi"
 	"github.com/ozontech/seq-db/proxy/search"
 	"github.com/ozontech/seq-db/proxy/stores"
+	"github.com/ozontech/seq-db/proxyapi"
 	"github.com/ozontech/seq-db/seq"
 	realstore "github.com/ozontech/seq-db/storeapi"
 
@@ -53,7 +57,33 @@ type StreamOp struct {
 	ID  *ID    `json:"id,omitempty"`  // extra: the unrequested document's ID
 }
 
+// one bin of an aggregation answer (integer-valued, exact in float64)
+type Bin struct {
+	MID     uint64  `json:"mid"`
+	Tok     uint64  `json:"tok"`
+	Total   int64   `json:"total"`
+	Sum     int64   `json:"sum"`
+	Min     int64   `json:"min"`
+	Max     int64   `json:"max"`
+	NE      int64   `json:"ne"`
+	Samples []int64 `json:"samples,omitempty"`
+}
+
+type Agg struct {
+	Bins []Bin `json:"bins,omitempty"`
+	NE   int64 `json:"ne"`
+}
+
+// the rest of a store answer: total, histogram, aggregations, number of soft errors
+type Extra struct {
+	Total uint64      `json:"total"`
+	Hist  [][2]uint64 `json:"hist,omitempty"`
+	Aggs  []Agg       `json:"aggs,omitempty"`
+	Errs  int         `json:"errs"`
+}
+
 type Host struct {
+	X       *Extra     `json:"x,omitempty"`
 	Beh     string     `json:"beh"`           // ok err wantsold toomanyfrac toomanyuniq
 	Legacy  bool       `json:"legacy"`        // wantsold/toomanyuniq as gRPC error message instead of response code
 	IDs     []ID       `json:"ids,omitempty"` // answer of an ok replica
@@ -71,6 +101,11 @@ type Script struct {
 	Size    int      `json:"size"`
 	Rev     bool     `json:"rev"`
 	NoFetch bool     `json:"nofetch,omitempty"`
+	Itv     uint64   `json:"itv,omitempty"`     // histogram interval in ms (0 = none)
+	NAggs   int      `json:"naggs,omitempty"`   // number of aggregation queries
+	Shuffle bool     `json:"shuffle,omitempty"` // ShuffleReplicas
+	API     string   `json:"api,omitempty"`     // "" = Ingestor.Search, "search" / "complex" = proxyapi handler
+	Orig    []ID     `json:"orig,omitempty"`    // kind docs: the IDs passed to Ingestor.Documents
 	// kind fetch: hosts (only FetchKO/Ops used) and the requested (ID, host) list
 	Hosts []Host  `json:"hosts,omitempty"`
 	Req   []ReqID `json:"req,omitempty"`
@@ -86,8 +121,10 @@ type ReqID struct {
 
 type run struct {
 	mu        sync.Mutex
-	tag       uint64 // fresh payload tag per sent document
-	fetchSeq  []int  // host indices in the order their Fetch was called
+	tag       uint64     // fresh payload tag per sent document
+	searchSeq []int      // host indices in the order their Search was called
+	fetchIDs  map[ID]int // which host each ID was requested from (API level: sources are not visible)
+	fetchSeq  []int      // host indices in the order their Fetch was called
 	fetchFail []int
 	streams   map[int][]sentDoc // what each host's stream delivered before its end
 }
@@ -105,9 +142,35 @@ type fakeClient struct {
 }
 
 func (f *fakeClient) Search(ctx context.Context, in *storeapi.SearchRequest, opts ...grpc.CallOption) (*storeapi.SearchResponse, error) {
+	f.r.mu.Lock()
+	f.r.searchSeq = append(f.r.searchSeq, f.idx)
+	f.r.mu.Unlock()
 	switch f.h.Beh {
 	case "ok":
-		resp := &storeapi.SearchResponse{Total: uint64(len(f.h.IDs))}
+		resp := &storeapi.SearchResponse{Histogram: map[uint64]uint64{}}
+		if x := f.h.X; x != nil {
+			resp.Total = x.Total
+			for _, kv := range x.Hist {
+				resp.Histogram[kv[0]] = kv[1]
+			}
+			for _, a := range x.Aggs {
+				pa := &storeapi.SearchResponse_Agg{NotExists: a.NE}
+				for _, b := range a.Bins {
+					smp := make([]float64, len(b.Samples))
+					for i, v := range b.Samples {
+						smp[i] = float64(v)
+					}
+					pa.Timeseries = append(pa.Timeseries, &storeapi.SearchResponse_Bin{
+						Label: fmt.Sprintf("t%d", b.Tok), Ts: timestamppb.New(time.UnixMilli(int64(b.MID))),
+						Hist: &storeapi.SearchResponse_Histogram{Min: float64(b.Min), Max: float64(b.Max), Sum: float64(b.Sum),
+							Total: b.Total, NotExists: b.NE, Samples: smp}})
+				}
+				resp.Aggs = append(resp.Aggs, pa)
+			}
+			for i := 0; i < x.Errs; i++ {
+				resp.Errors = append(resp.Errors, fmt.Sprintf("soft error %d of h%d;", i, f.idx))
+			}
+		}
 		for _, id := range f.h.IDs {
 			hint := ""
 			if !f.h.NoHint {
@@ -168,6 +231,11 @@ func (s *fakeStream) Recv() (*storeapi.BinaryData, error) {
 func (f *fakeClient) Fetch(ctx context.Context, in *storeapi.FetchRequest, opts ...grpc.CallOption) (storeapi.StoreApi_FetchClient, error) {
 	f.r.mu.Lock()
 	defer f.r.mu.Unlock()
+	for _, s := range in.Ids {
+		if id, err := seq.FromString(s); err == nil {
+			f.r.fetchIDs[ID{uint64(id.MID), uint64(id.RID)}] = f.idx
+		}
+	}
 	if f.h.FetchKO {
 		f.r.fetchFail = append(f.r.fetchFail, f.idx)
 		return nil, status.Error(codes.Unavailable, "fetch refused")
@@ -198,6 +266,12 @@ func (f *fakeClient) Fetch(ctx context.Context, in *storeapi.FetchRequest, opts 
 		case "blank":
 			if n > 0 {
 				ds[op.I%n].blank = true
+			}
+		case "mask": // the store does not have the documents whose bit is set
+			for i := range ds {
+				if op.I>>(uint(i)%16)&1 == 1 {
+					ds[i].blank = true
+				}
 			}
 		case "trunc":
 			ds = ds[:op.I%(n+1)]
@@ -244,7 +318,12 @@ type outcome struct {
 	// search
 	errKind string // "" = response
 	partial bool
-	ids     []ReqID // returned IDs, Host = canonical host index
+	ids     []ReqID  // returned IDs, Host = canonical host index
+	obs     *obsRest // merged total / histogram / aggregations / number of soft errors
+	// API level
+	api     string // grpc:invalid grpc:internal only-error resp
+	apiFlag bool
+	apiCode string // no partial
 	// fetch
 	fetched  bool
 	docs     []gotDoc
@@ -270,7 +349,7 @@ type built struct {
 }
 
 func build(sc *Script) *built {
-	r := &run{streams: map[int][]sentDoc{}}
+	r := &run{streams: map[int][]sentDoc{}, fetchIDs: map[ID]int{}}
 	clients := map[string]storeapi.StoreApiClient{}
 	n := 0
 	mk := func(tier [][]Host) *stores.Stores {
@@ -287,8 +366,8 @@ func build(sc *Script) *built {
 		}
 		return st
 	}
-	cfg := search.Config{ShuffleReplicas: false}
-	if sc.Kind == "fetch" {
+	cfg := search.Config{ShuffleReplicas: sc.Shuffle}
+	if sc.Kind == "fetch" || sc.Kind == "docs" {
 		for i := range sc.Hosts {
 			clients[hostName(n)] = &fakeClient{idx: n, h: &sc.Hosts[i], r: r}
 			n++
@@ -365,8 +444,28 @@ func execute(sc *Script) (o *outcome) {
 			pull(o, b, it, len(ids))
 			return
 		}
+		if sc.Kind == "docs" {
+			var ids []seq.ID
+			for _, q := range sc.Orig {
+				ids = append(ids, q.seq())
+			}
+			it, err := b.si.Documents(ctx, search.FetchRequest{IDs: ids})
+			if err != nil {
+				o.errKind = "fetch"
+				return
+			}
+			pull(o, b, it, len(ids))
+			return
+		}
+		if sc.API != "" {
+			executeAPI(sc, b, o)
+			return
+		}
 		sr := &search.SearchRequest{Q: []byte("message:x"), Offset: sc.Off, Size: sc.Size, From: 0, To: 1 << 40,
-			ShouldFetch: !sc.NoFetch, Order: seq.DocsOrderDesc}
+			ShouldFetch: !sc.NoFetch, Order: seq.DocsOrderDesc, Interval: seq.MID(sc.Itv)}
+		for i := 0; i < sc.NAggs; i++ {
+			sr.AggQ = append(sr.AggQ, search.AggQuery{Field: "f", GroupBy: "g", Func: seq.AggFuncSum})
+		}
 		if sc.Rev {
 			sr.Order = seq.DocsOrderAsc
 		}
@@ -393,6 +492,7 @@ func execute(sc *Script) (o *outcome) {
 				o.weirdErr = "response with an error that is not ErrPartialResponse: " + err.Error()
 			}
 		}
+		o.obs = obsFrom(qpr)
 		for _, x := range qpr.IDs {
 			h, ok := b.hostOf[x.Source]
 			if !ok {
@@ -407,9 +507,209 @@ func execute(sc *Script) (o *outcome) {
 	select {
 	case <-done:
 	case <-time.After(20 * time.Second):
-		return &outcome{hung: true, r: &run{streams: map[int][]sentDoc{}}}
+		return &outcome{hung: true, r: &run{streams: map[int][]sentDoc{}, fetchIDs: map[ID]int{}}}
 	}
 	return o
+}
+
+// the merged QPR besides IDs, canonicalised (sorted keys)
+func f2i(f float64) string {
+	if f >= 9.2e18 {
+		return "9223372036854775808"
+	}
+	if f <= -9.2e18 {
+		return "-9223372036854775808"
+	}
+	return strconv.FormatInt(int64(f), 10)
+}
+
+type obsBin struct {
+	mid, tok      uint64
+	total, ne     int64
+	sum, min, max string
+	samples       []string
+}
+
+type obsAgg struct {
+	bins []obsBin
+	ne   int64
+}
+
+type obsRest struct {
+	total uint64
+	hist  [][2]uint64
+	aggs  []obsAgg
+	errs  int
+}
+
+func obsFrom(qpr *seq.QPR) *obsRest {
+	o := &obsRest{total: qpr.Total, errs: len(qpr.Errors)}
+	for k, v := range qpr.Histogram {
+		o.hist = append(o.hist, [2]uint64{uint64(k), v})
+	}
+	sort.Slice(o.hist, func(i, j int) bool { return o.hist[i][0] < o.hist[j][0] })
+	for _, a := range qpr.Aggs {
+		oa := obsAgg{ne: a.NotExists}
+		for bin, h := range a.SamplesByBin {
+			tok, _ := strconv.ParseUint(strings.TrimPrefix(bin.Token, "t"), 10, 64)
+			ob := obsBin{mid: uint64(bin.MID), tok: tok, total: h.Total, ne: h.NotExists, sum: f2i(h.Sum), min: f2i(h.Min), max: f2i(h.Max)}
+			smp := append([]float64{}, h.Samples...)
+			sort.Float64s(smp)
+			for _, v := range smp {
+				ob.samples = append(ob.samples, f2i(v))
+			}
+			oa.bins = append(oa.bins, ob)
+		}
+		sort.Slice(oa.bins, func(i, j int) bool {
+			if oa.bins[i].mid != oa.bins[j].mid {
+				return oa.bins[i].mid < oa.bins[j].mid
+			}
+			return oa.bins[i].tok < oa.bins[j].tok
+		})
+		o.aggs = append(o.aggs, oa)
+	}
+	return o
+}
+
+func (o *obsRest) coq() string {
+	if o == nil || (o.total == 0 && len(o.hist) == 0 && len(o.aggs) == 0 && o.errs == 0) {
+		return "X0"
+	}
+	var hs, as []string
+	for _, kv := range o.hist {
+		hs = append(hs, fmt.Sprintf("(%d%%N, %d%%Z)", kv[0], kv[1]))
+	}
+	for _, a := range o.aggs {
+		var bs []string
+		for _, b := range a.bins {
+			smp := make([]string, len(b.samples))
+			for i, v := range b.samples {
+				smp[i] = "(" + v + ")%Z"
+			}
+			bs = append(bs, fmt.Sprintf("((%d,%d)%%N, mkSc (%d)%%Z (%s)%%Z (%s)%%Z (%s)%%Z (%d)%%Z [%s])",
+				b.mid, b.tok, b.total, b.sum, b.min, b.max, b.ne, strings.Join(smp, "; ")))
+		}
+		as = append(as, fmt.Sprintf("([%s], (%d)%%Z)", strings.Join(bs, "; "), a.ne))
+	}
+	return fmt.Sprintf("(mkX %d%%Z [%s] [%s] %d)", o.total, strings.Join(hs, "; "), strings.Join(as, "; "), o.errs)
+}
+
+func (x *Extra) coq() string {
+	if x == nil {
+		return "X0"
+	}
+	o := &obsRest{total: x.Total, errs: x.Errs}
+	o.hist = x.Hist
+	for _, a := range x.Aggs {
+		oa := obsAgg{ne: a.NE}
+		for _, b := range a.Bins {
+			ob := obsBin{mid: b.MID, tok: b.Tok, total: b.Total, ne: b.NE, sum: strconv.FormatInt(b.Sum, 10),
+				min: strconv.FormatInt(b.Min, 10), max: strconv.FormatInt(b.Max, 10)}
+			for _, v := range b.Samples {
+				ob.samples = append(ob.samples, strconv.FormatInt(v, 10))
+			}
+			oa.bins = append(oa.bins, ob)
+		}
+		o.aggs = append(o.aggs, oa)
+	}
+	return o.coq()
+}
+
+// executeAPI drives the real proxyapi Search / ComplexSearch handler on top of the ingestor
+func executeAPI(sc *Script, b *built, o *outcome) {
+	srv := proxyapi.VerifC16NewGrpcV1(b.si, 30*time.Second)
+	q := &seqproxyapi.SearchQuery{Query: "message:x", From: timestamppb.New(time.UnixMilli(0)), To: timestamppb.New(time.UnixMilli(1 << 40))}
+	order := seqproxyapi.Order_ORDER_DESC
+	if sc.Rev {
+		order = seqproxyapi.Order_ORDER_ASC
+	}
+	var (
+		err   error
+		perr  *seqproxyapi.Error
+		flag  bool
+		total int64
+		docs  []*seqproxyapi.Document
+		hist  *seqproxyapi.Histogram
+	)
+	if sc.API == "search" {
+		var resp *seqproxyapi.SearchResponse
+		resp, err = srv.Search(context.Background(), &seqproxyapi.SearchRequest{Query: q, Size: int64(sc.Size), Offset: int64(sc.Off), WithTotal: true, Order: order})
+		if resp != nil {
+			perr, flag, total, docs = resp.Error, resp.PartialResponse, resp.Total, resp.Docs
+		}
+	} else {
+		req := &seqproxyapi.ComplexSearchRequest{Query: q, Size: int64(sc.Size), Offset: int64(sc.Off), WithTotal: true, Order: order}
+		if sc.Itv > 0 {
+			req.Hist = &seqproxyapi.HistQuery{Interval: fmt.Sprintf("%dms", sc.Itv)}
+		}
+		var resp *seqproxyapi.ComplexSearchResponse
+		resp, err = srv.ComplexSearch(context.Background(), req)
+		if resp != nil {
+			perr, flag, total, docs, hist = resp.Error, resp.PartialResponse, resp.Total, resp.Docs, resp.Hist
+		}
+	}
+	if err != nil {
+		switch status.Code(err) {
+		case codes.InvalidArgument:
+			o.api = "grpc:invalid"
+		case codes.Internal:
+			o.api = "grpc:internal"
+		default:
+			o.weirdErr = "API answers with an unexpected gRPC error: " + err.Error()
+		}
+		return
+	}
+	if perr == nil {
+		o.weirdErr = "API response without an error field"
+		return
+	}
+	switch perr.Code {
+	case seqproxyapi.ErrorCode_ERROR_CODE_TOO_MANY_FRACTIONS_HIT:
+		if len(docs) > 0 || flag {
+			o.weirdErr = "too-many-fractions answer carries documents or the partial flag"
+		}
+		o.api = "only-error"
+		return
+	case seqproxyapi.ErrorCode_ERROR_CODE_NO:
+		o.apiCode = "no"
+	case seqproxyapi.ErrorCode_ERROR_CODE_PARTIAL_RESPONSE:
+		o.apiCode = "partial"
+	default:
+		o.weirdErr = "API response with error code " + perr.Code.String()
+		return
+	}
+	o.api, o.apiFlag, o.partial = "resp", flag, flag
+	or := &obsRest{total: uint64(total)}
+	if hist != nil {
+		for _, bk := range hist.Buckets {
+			or.hist = append(or.hist, [2]uint64{uint64(bk.Ts.AsTime().UnixMilli()), bk.DocCount})
+		}
+		sort.Slice(or.hist, func(i, j int) bool { return or.hist[i][0] < or.hist[j][0] })
+	}
+	o.obs = or
+	o.fetched = len(docs) > 0
+	for _, d := range docs {
+		id, perr := seq.FromString(d.Id)
+		if perr != nil {
+			o.weirdErr = "API document with unparsable id " + d.Id
+			return
+		}
+		x := ID{uint64(id.MID), uint64(id.RID)}
+		h, ok := b.r.fetchIDs[x]
+		if !ok {
+			o.unmapped = true
+		}
+		o.ids = append(o.ids, ReqID{ID: x, Host: h})
+		g := gotDoc{id: x, host: h}
+		if len(d.Data) > 0 {
+			t, err := strconv.ParseUint(string(d.Data), 10, 64)
+			if err != nil {
+				t = 1 << 40
+			}
+			g.tag = t
+		}
+		o.docs = append(o.docs, g)
+	}
 }
 
 // ---------------------------------------------------------------- Coq rendering
@@ -422,15 +722,38 @@ func idsCoq(l []ID) string {
 	return "[" + strings.Join(p, "; ") + "]"
 }
 
-func tierCoq(t [][]Host, base *int) string {
+func tierCoq(t [][]Host, base *int, called []int) string {
+	rank := map[int]int{}
+	for i, h := range called {
+		if _, ok := rank[h]; !ok {
+			rank[h] = i
+		}
+	}
 	var sh []string
 	for _, s := range t {
-		var rs []string
+		type rep struct {
+			idx int
+			h   Host
+		}
+		var reps []rep
 		for _, h := range s {
+			reps = append(reps, rep{*base, h})
+			*base++
+		}
+		sort.SliceStable(reps, func(i, j int) bool {
+			ri, oki := rank[reps[i].idx]
+			rj, okj := rank[reps[j].idx]
+			if oki != okj {
+				return oki
+			}
+			return oki && ri < rj
+		})
+		var rs []string
+		for _, rp := range reps {
 			var b string
-			switch h.Beh {
+			switch rp.h.Beh {
 			case "ok":
-				b = "BOk " + idsCoq(h.IDs)
+				b = "BOk " + idsCoq(rp.h.IDs) + " " + rp.h.X.coq()
 			case "err":
 				b = "BErr"
 			case "wantsold":
@@ -440,8 +763,7 @@ func tierCoq(t [][]Host, base *int) string {
 			case "toomanyuniq":
 				b = "BTooManyUniq"
 			}
-			rs = append(rs, fmt.Sprintf("(%d, %s)", *base, b))
-			*base++
+			rs = append(rs, fmt.Sprintf("(%d, %s)", rp.idx, b))
 		}
 		sh = append(sh, "["+strings.Join(rs, "; ")+"]")
 	}
@@ -501,6 +823,14 @@ func allHosts(sc *Script) []*Host {
 
 func implJSON(o *outcome) map[string]any {
 	m := map[string]any{}
+	if o.api != "" {
+		m["api"] = o.api
+		m["api_code"] = o.apiCode
+		m["api_partial_response"] = o.apiFlag
+	}
+	if o.obs != nil {
+		m["rest"] = o.obs.coq()
+	}
 	if o.errKind != "" {
 		m["error"] = o.errKind
 	} else {
@@ -573,11 +903,47 @@ func record(w *casefile.Writer, sc *Script, o *outcome) {
 			cl, len(sc.Req) >= 2 && len(o.r.fetchSeq) >= 1, sc, implJSON(o))
 		return
 	}
+	if sc.Kind == "docs" {
+		w.Count("docs:hosts=" + strconv.Itoa(len(sc.Hosts)))
+		if o.errKind == "fetch" {
+			if len(o.r.fetchSeq) > 0 || len(sc.Orig) == 0 {
+				w.Violate("fetch-error-with-live-store", "Documents failed although a store accepted the fetch", sc)
+			}
+			w.Count("docs:all-calls-failed")
+			w.Evals(1)
+			return
+		}
+		cl := "documents"
+		if streamsMisbehave {
+			cl = "documents-misbehaving"
+		}
+		var srcs []int
+		for i := range sc.Hosts {
+			srcs = append(srcs, i)
+		}
+		w.Add(fmt.Sprintf("CDocs %s %s %s (FOk %s)", idsCoq(sc.Orig), natsCoq(srcs), streamsCoq(o.r), docsCoq(o.docs)),
+			cl, len(sc.Orig) >= 2 && len(sc.Hosts) >= 2, sc, implJSON(o))
+		return
+	}
 	// search
+	if sc.Shuffle {
+		seen := map[int]bool{}
+		for _, h := range o.r.searchSeq {
+			if seen[h] {
+				w.Violate("replica-called-twice", "a replica was asked twice in one search", sc)
+				return
+			}
+			seen[h] = true
+		}
+	}
+	var called []int
+	if sc.Shuffle {
+		called = o.r.searchSeq
+	}
 	base := 0
-	hot := tierCoq(sc.Hot, &base)
-	hotread := tierCoq(sc.HotRead, &base)
-	cold := tierCoq(sc.Cold, &base)
+	hot := tierCoq(sc.Hot, &base, called)
+	hotread := tierCoq(sc.HotRead, &base, called)
+	cold := tierCoq(sc.Cold, &base, called)
 	var ffail []int
 	for i, h := range allHosts(sc) {
 		if h.FetchKO && !sc.NoFetch {
@@ -586,12 +952,29 @@ func record(w *casefile.Writer, sc *Script, o *outcome) {
 	}
 	var impl, cl string
 	switch {
+	case sc.API != "":
+		cl = "api-" + sc.API + "-" + o.api
+		switch o.api {
+		case "grpc:invalid":
+			impl = "(AErr GInvalidArgument)"
+		case "grpc:internal":
+			impl = "(AErr GInternal)"
+		case "only-error":
+			impl = "AOnlyError"
+		default:
+			code := "CNo"
+			if o.apiCode == "partial" {
+				code = "CPartial"
+			}
+			impl = fmt.Sprintf("(AResp %s %s %s %s)", casefile.Bool(o.apiFlag), code, reqCoq(o.ids), o.obs.coq())
+			cl = "api-" + sc.API + "-resp-" + o.apiCode
+		}
 	case o.errKind != "":
 		k := map[string]string{"wantsold": "EWantsOld", "toomanyfrac": "ETooManyFrac", "other": "EOther", "fetch": "EFetch"}[o.errKind]
 		impl = "(SErr " + k + ")"
 		cl = "search-error-" + o.errKind
 	default:
-		impl = fmt.Sprintf("(SOk %s %s)", casefile.Bool(o.partial), reqCoq(o.ids))
+		impl = fmt.Sprintf("(SOk %s %s %s)", casefile.Bool(o.partial), reqCoq(o.ids), o.obs.coq())
 		cl = "search-complete"
 		if o.partial {
 			cl = "search-partial"
@@ -607,7 +990,18 @@ func record(w *casefile.Writer, sc *Script, o *outcome) {
 		cl += "-cold"
 	}
 	w.Count(fmt.Sprintf("topology:hot=%dx%d,cold=%d", len(sc.Hot)+len(sc.HotRead), maxRepl(sc), len(sc.Cold)))
-	w.Add(fmt.Sprintf("CSearch %s %s %s %d %d %s %s %s", hot, hotread, cold, sc.Off, sc.Size, casefile.Bool(sc.Rev), natsCoq(ffail), impl),
+	ctor := "CSearch"
+	if sc.API != "" {
+		ctor = "CApi"
+	}
+	if sc.Shuffle {
+		cl += "-shuffled"
+	}
+	if hasExtras(sc) {
+		w.Count("search:with-totals-hist-aggs")
+	}
+	w.Add(fmt.Sprintf("%s %s %s %s %d %d %s %d%%N %d %s %s", ctor, hot, hotread, cold, sc.Off, sc.Size, casefile.Bool(sc.Rev),
+		sc.Itv, sc.NAggs, natsCoq(ffail), impl),
 		cl, hasFailure(sc), sc, implJSON(o))
 	if o.fetched {
 		fc := "fetch-in-search"
@@ -617,6 +1011,15 @@ func record(w *casefile.Writer, sc *Script, o *outcome) {
 		w.Add(fmt.Sprintf("CFetch %s %s (FOk %s)", reqCoq(o.ids), streamsCoq(o.r), docsCoq(o.docs)),
 			fc, len(o.ids) >= 2, sc, implJSON(o))
 	}
+}
+
+func hasExtras(sc *Script) bool {
+	for _, h := range allHosts(sc) {
+		if h.X != nil {
+			return true
+		}
+	}
+	return false
 }
 
 func countHosts(t [][]Host) int {
@@ -760,6 +1163,22 @@ func genSearch(r *rng.R) *Script {
 		h := &t[r.Intn(len(t))][0]
 		h.Beh, h.IDs = "wantsold", nil
 	}
+	sc.Shuffle = r.Chance(1, 4)
+	switch r.Intn(8) {
+	case 0, 1:
+		sc.API = "search"
+	case 2, 3:
+		sc.API = "complex"
+	}
+	if sc.API != "" {
+		sc.NoFetch = false
+		if sc.Size == 0 {
+			sc.Size = r.Range(1, 8)
+		}
+	}
+	if r.Chance(1, 2) {
+		genExtras(r, sc)
+	}
 	// fetch call failures: a strict subset only when no ID can come from two stores
 	hs := allHosts(sc)
 	switch {
@@ -770,6 +1189,111 @@ func genSearch(r *rng.R) *Script {
 	case disjoint && r.Chance(1, 5):
 		for _, h := range hs {
 			h.FetchKO = r.Chance(1, 3)
+		}
+	}
+	return sc
+}
+
+// totals, histograms, aggregations and soft errors of the ok replicas
+func genExtras(r *rng.R, sc *Script) {
+	if sc.API != "search" && r.Chance(2, 3) {
+		sc.Itv = uint64(rng.Pick(r, []int{1, 2, 5}))
+	}
+	if sc.API == "" {
+		sc.NAggs = r.Range(0, 2)
+	}
+	withHist := sc.API == "" || (sc.API == "complex" && sc.Itv > 0)
+	softErrs := r.Chance(1, 3)
+	for _, h := range allHosts(sc) {
+		if h.Beh != "ok" {
+			continue
+		}
+		x := &Extra{Total: uint64(r.Range(0, 12))}
+		if r.Chance(1, 4) {
+			x.Total = 0
+		}
+		if withHist && r.Chance(3, 4) {
+			itv := sc.Itv
+			if itv == 0 {
+				itv = 2
+			}
+			seen := map[uint64]bool{}
+			for k := r.Range(0, 4); k > 0; k-- {
+				key := uint64(r.Range(0, 5)) * itv
+				if seen[key] {
+					continue
+				}
+				seen[key] = true
+				x.Hist = append(x.Hist, [2]uint64{key, uint64(r.Range(0, 4))})
+			}
+		}
+		na := sc.NAggs
+		if na > 0 && r.Chance(1, 6) {
+			na--
+		}
+		for a := 0; a < na; a++ {
+			ag := Agg{NE: int64(r.Range(0, 2))}
+			seen := map[[2]uint64]bool{}
+			for k := r.Range(0, 3); k > 0; k-- {
+				key := [2]uint64{uint64(rng.Pick(r, []int{0, 5})), uint64(r.Range(0, 2))}
+				if seen[key] {
+					continue
+				}
+				seen[key] = true
+				b := Bin{MID: key[0], Tok: key[1], NE: int64(r.Range(0, 2)), Total: int64(r.Range(0, 3))}
+				if b.Total > 0 {
+					b.Min, b.Max = math.MaxInt32, math.MinInt32
+					for i := int64(0); i < b.Total; i++ {
+						v := int64(r.Range(-5, 20))
+						b.Sum += v
+						if v < b.Min {
+							b.Min = v
+						}
+						if v > b.Max {
+							b.Max = v
+						}
+						if !r.Chance(1, 4) {
+							b.Samples = append(b.Samples, v)
+						}
+					}
+				} else if r.Chance(1, 2) { // stale fields of an empty container must be ignored
+					b.Min, b.Max, b.Sum = -7, 33, 5
+				}
+				ag.Bins = append(ag.Bins, b)
+			}
+			x.Aggs = append(x.Aggs, ag)
+		}
+		if softErrs && r.Chance(1, 3) {
+			x.Errs = r.Range(1, 2)
+		}
+		h.X = x
+	}
+}
+
+// Ingestor.Documents: every store is asked for every ID
+func genDocs(r *rng.R) *Script {
+	sc := &Script{Kind: "docs"}
+	nh := r.Range(1, 3)
+	for i := 0; i < nh; i++ {
+		h := Host{FetchKO: r.Chance(1, 12)}
+		if !r.Chance(1, 5) {
+			h.Ops = append(h.Ops, StreamOp{Op: "mask", I: r.Intn(1 << 16)})
+		}
+		if r.Chance(1, 3) {
+			h.Ops = append(h.Ops, genOps(r)...)
+		}
+		sc.Hosts = append(sc.Hosts, h)
+	}
+	seen := map[ID]bool{}
+	for k := r.Range(0, 6); k > 0; k-- {
+		id := ID{uint64(r.Range(1, 9)), uint64(r.Range(0, 2))}
+		if seen[id] && !r.Chance(1, 8) {
+			continue
+		}
+		seen[id] = true
+		sc.Orig = append(sc.Orig, id)
+		if r.Chance(1, 25) {
+			sc.Orig = append(sc.Orig, id) // the same ID twice in a row
 		}
 	}
 	return sc
@@ -895,9 +1419,9 @@ func main() {
 		return
 	}
 	r := rng.New(*seed)
-	nSearch, nFetch := 4000, 3000
+	nSearch, nFetch, nDocs := 4000, 2500, 1500
 	if *tier == "thorough" {
-		nSearch, nFetch = 60000, 40000
+		nSearch, nFetch, nDocs = 60000, 30000, 15000
 	}
 	scripts := genExhaustive()
 	w.Exhaust = true
@@ -907,6 +1431,9 @@ func main() {
 	}
 	for i := 0; i < nFetch; i++ {
 		scripts = append(scripts, genFetch(r.Fork()))
+	}
+	for i := 0; i < nDocs; i++ {
+		scripts = append(scripts, genDocs(r.Fork()))
 	}
 	runAll(w, scripts)
 	refuseCases(w, r, 200)
